@@ -2,6 +2,8 @@ package main
 
 import (
 	"bytes"
+	"encoding/base64"
+	"encoding/json"
 	"errors"
 	"fmt"
 	"math/rand"
@@ -226,9 +228,11 @@ func (rn *c12Runner[V]) done() {
 }
 
 // try loads one mutant and judges it.
-func (rn *c12Runner[V]) try(m c12Mutant) {
+func (rn *c12Runner[V]) try(m c12Mutant) { rn.tryBytes(m, m.apply(rn.stream, rn.msgs)) }
+
+// tryBytes loads the given (damaged) bytes and judges the outcome.
+func (rn *c12Runner[V]) tryBytes(m c12Mutant, data []byte) {
 	r := rn.r
-	data := m.apply(rn.stream, rn.msgs)
 	if rn.lastF != nil {
 		// descriptor on disk before the call: if the decoder kills the process the driver still knows the input
 		line := fmt.Sprintf("%-120s\n", fmt.Sprintf("shape=%s kind=%s off=%d arg=%d len=%d", rn.shape.Name, m.Kind, m.Off, m.Arg, m.Len))
@@ -252,7 +256,19 @@ func (rn *c12Runner[V]) try(m c12Mutant) {
 	}()
 	r.Eval(1)
 	wit := func() map[string]any {
-		return map[string]any{"shape": rn.shape, "mutant": m, "stream_len": len(rn.stream), "error": fmt.Sprint(lerr), "messages": len(rn.msgs)}
+		w := map[string]any{"shape": rn.shape, "mutant": m, "stream_len": len(rn.stream), "error": fmt.Sprint(lerr), "messages": len(rn.msgs)}
+		if len(data) <= 1<<16 {
+			// the exact damaged bytes and the entries of the saved cache: `--replay` loads precisely these
+			w["damaged_stream_b64"] = base64.StdEncoding.EncodeToString(data)
+			w["original_stream_b64"] = base64.StdEncoding.EncodeToString(rn.stream)
+			var saved []map[string]any
+			for k, sv := range rn.saved {
+				saved = append(saved, map[string]any{"key": k, "value": fmt.Sprint(sv.val), "cost": sv.cost, "deadline": sv.deadline})
+			}
+			w["saved_entries"] = saved
+			w["metadata_message_end"] = rn.meta.End
+		}
+		return w
 	}
 	where := rn.where(m)
 	if panicked != "" {
@@ -485,7 +501,61 @@ func (rn *c12Runner[V]) enumerate(exhaustive bool, sample int) {
 	r.Sample(10, map[string]any{"shape": rn.shape, "stream_bytes": n, "gob_messages": len(rn.msgs), "saved_entries": len(rn.saved), "accepted": rn.accepted, "rejected": rn.rejected})
 }
 
+// c12Replay loads exactly the damaged bytes recorded in a witness (int->int streams) and judges them
+// against the saved entries recorded with it.
+func c12Replay(r *Run) bool {
+	raw, err := os.ReadFile(r.Replay)
+	if err != nil {
+		return false
+	}
+	var doc struct {
+		Witness struct {
+			Shape    c12Shape  `json:"shape"`
+			Mutant   c12Mutant `json:"mutant"`
+			Damaged  string    `json:"damaged_stream_b64"`
+			Original string    `json:"original_stream_b64"`
+			MetaEnd  int       `json:"metadata_message_end"`
+			Saved    []struct {
+				Key      int    `json:"key"`
+				Value    string `json:"value"`
+				Cost     int64  `json:"cost"`
+				Deadline int64  `json:"deadline"`
+			} `json:"saved_entries"`
+		} `json:"witness"`
+	}
+	if json.Unmarshal(raw, &doc) != nil || doc.Witness.Damaged == "" || doc.Witness.Shape.Big {
+		return false
+	}
+	data, err1 := base64.StdEncoding.DecodeString(doc.Witness.Damaged)
+	orig, err2 := base64.StdEncoding.DecodeString(doc.Witness.Original)
+	if err1 != nil || err2 != nil {
+		return false
+	}
+	rn := &c12Runner[int]{r: r, shape: doc.Witness.Shape, stream: orig, saved: map[int]c12Saved[int]{}}
+	for _, sv := range doc.Witness.Saved {
+		var v int
+		fmt.Sscan(sv.Value, &v)
+		rn.saved[sv.Key] = c12Saved[int]{val: v, cost: sv.Cost, deadline: sv.Deadline}
+	}
+	rn.msgs = gobMessages(orig)
+	for _, m := range rn.msgs {
+		if !m.TypeDef {
+			rn.meta = m
+			break
+		}
+	}
+	r.Rule("replay of one recorded damaged stream (exact bytes) against the saved entries recorded with it")
+	rn.tryBytes(doc.Witness.Mutant, data)
+	r.Distinct("replay/a")
+	r.Distinct("replay/b")
+	r.Sample(2, map[string]any{"replayed_mutant": doc.Witness.Mutant, "bytes": len(data)})
+	return true
+}
+
 func runC12(r *Run) {
+	if r.Replay != "" && c12Replay(r) {
+		return
+	}
 	r.Rule("case = one mutant (truncation / single-bit flip / byte substitution / 2-64 byte burst / duplicated, dropped or swapped gob message) of a stream written by the real SaveCache, loaded into a fresh cache by the real LoadCache and judged on error value and white-box contents. Non-trivial = a mutant the decoder accepted without error, or one that loaded entries before failing; distinct by (stream shape, mutation kind, position class)")
 	r.Assume("the unmodified stream loads without error and reproduces the saved entries (control case, also C11's business)",
 		"entries loaded before an error is returned are not judged for plain corruption (the caller is told), but they are judged under a version mismatch, where nothing may be loaded")
